@@ -32,6 +32,7 @@ STUBS = []
 if SYMBOLIC:
     # util.lower is an lru_cache around a pure function; the cache would hash (hence realise)
     # symbolic strings.  Use the wrapped function itself.
+    _ORIG_LOWER = util.lower
     _raw_lower = util.lower.__wrapped__
     util.lower = _raw_lower
     STUBS.append('util.lower -> util.lower.__wrapped__ (drop lru_cache; function is pure)')
@@ -80,21 +81,61 @@ def raw_compile(pattern, namespaces=None, custom=None, flags=0):
 
 
 import contextlib  # noqa: E402
+import signal  # noqa: E402
+
+_cached_lower = util.lower if not SYMBOLIC else None
+NATIVE_LIMIT = 60          # seconds one native block may run before it counts as non-termination
+
+
+class NonTermination(Exception):
+    """Raised inside a native block that did not finish in time (reported and replayed like any other exception)."""
+
+
+def _alarm(signum, frame):
+    raise NonTermination(f'native block still running after {NATIVE_LIMIT}s')
+
+
+class _Native:
+    """Run a purely concrete block natively: no tracing, the library's real (cached) util.lower, and a watchdog so
+    that an endless loop in the library becomes a counterexample instead of a silently exhausted budget."""
+
+    def __init__(self):
+        self.cm = None
+
+    def __enter__(self):
+        if SYMBOLIC:
+            from crosshair.tracers import NoTracing
+            self.cm = NoTracing()
+            self.cm.__enter__()
+            util.lower = _ORIG_LOWER
+        try:
+            self.old = signal.signal(signal.SIGALRM, _alarm)
+            signal.setitimer(signal.ITIMER_REAL, NATIVE_LIMIT)
+        except ValueError:      # not in the main thread
+            self.old = None
+        return self
+
+    def __exit__(self, *a):
+        if self.old is not None:
+            signal.setitimer(signal.ITIMER_REAL, 0)
+            signal.signal(signal.SIGALRM, self.old)
+        if SYMBOLIC:
+            util.lower = _raw_lower
+            self.cm.__exit__(*a)
+        return False
+
 
 if SYMBOLIC:
-    from crosshair.tracers import NoTracing as _NoTracing
     from crosshair.core import realize as _realize
 
     def concrete(x):
         """Force the solver to pick a concrete value for an (index-like) symbolic."""
         return _realize(x)
-
-    def notrace():
-        """Run a purely concrete block natively (no symbolic value may flow into it)."""
-        return _NoTracing()
 else:
     def concrete(x):
         return x
 
-    def notrace():
-        return contextlib.nullcontext()
+
+def notrace():
+    """Context manager for native blocks (no symbolic value may flow into them)."""
+    return _Native()
